@@ -138,12 +138,29 @@ class Stats:
         self.errors += o.errors
 
 
+CASE_WATCHDOG_S = 600.0
+
+
+class CaseTimeout(Exception):
+    """one case ran into the per-case watchdog: reported as a harness error (inconclusive), never as a violation"""
+
+
+def _on_watchdog(signum, frame):
+    raise CaseTimeout(f'case exceeded {CASE_WATCHDOG_S:.0f} s')
+
+
 def _safe_check(part: Part, case, st: Stats):
+    import signal
+    old = signal.signal(signal.SIGALRM, _on_watchdog)
+    signal.setitimer(signal.ITIMER_REAL, CASE_WATCHDOG_S)
     try:
         res = part.check(case)
     except Exception:
         st.errors.append((traceback.format_exc(limit=8), case))
         return
+    finally:
+        signal.setitimer(signal.ITIMER_REAL, 0)
+        signal.signal(signal.SIGALRM, old)
     st.add(case, res)
 
 
